@@ -376,6 +376,9 @@ func (o *orch) verifyReplay(v VRec, variant string) bool {
 	if strings.Contains(buf.String(), "REPRODUCED exact") {
 		return true
 	}
+	if v.Class.Oracle == "process-survives" && !strings.Contains(buf.String(), "NOT REPRODUCED") && cmd.ProcessState != nil && !cmd.ProcessState.Success() {
+		return true // the replay from the seed brought the fresh process down again
+	}
 	o.addTrouble("replay of %s in a fresh process did not reproduce class+digest:\n%s", v.Replay, buf.String())
 	return false
 }
@@ -427,7 +430,7 @@ func (o *orch) finish(t0 time.Time, detOK bool, detN int) int {
 				scheds[d] = struct{}{}
 			}
 			for _, d := range s.States {
-				states[core.Mix(d, core.HashString(en))] = struct{}{}
+				states[(core.Mix(d, core.HashString(en))&^core.SpaceMask)|(d&core.SpaceMask)] = struct{}{}
 			}
 			if len(samples) < 4 && len(s.Samples) > 0 {
 				have := 0
@@ -548,6 +551,20 @@ func (o *orch) finish(t0 time.Time, detOK bool, detN int) int {
 		"determinism_recheck": map[string]interface{}{"runs_repeated_in_fresh_process": detN, "all_digests_equal": detOK},
 		"exhaustive":          false,
 		"distinct_sets_saturated": saturated,
+	}
+	if len(p.Spaces) > 0 {
+		reached := make([]int64, 8)
+		for k := range states {
+			reached[k>>61]++
+		}
+		sp := map[string]interface{}{}
+		for i, x := range p.Spaces {
+			if i == 0 || x.Name == "" {
+				continue
+			}
+			sp[x.Name] = map[string]interface{}{"reached": reached[i], "total": x.Total, "exhaustive": reached[i] == x.Total}
+		}
+		cov["small_spaces"] = sp
 	}
 	for k, v := range o.extra {
 		cov[k] = v
